@@ -70,6 +70,24 @@ static inline ref NN(ref p)
     return p;
 }
 
+#include <float.h>
+#include <limits.h>
+#include <math.h>
+/* std::numeric_limits<T>::f() */
+#define NUMLIM_epsilon_d DBL_EPSILON
+#define NUMLIM_max_d DBL_MAX
+#define NUMLIM_max_sz SIZE_MAX
+#define NUMLIM_max_i INT_MAX
+#define NUMLIM_min_i INT_MIN
+#define NUMLIM_infinity_d ((double)INFINITY)
+#define std_isnan(x) (isnan(x) != 0)
+#define std_isinf(x) (isinf(x) != 0)
+#define std_fabs(x) fabs(x)
+#define std_pow(x, y) pow(x, y)
+#define std_log10(x) log10(x)
+#define std_floor(x) floor(x)
+#define std_abs(x) ((x) < 0 ? -(x) : (x))
+
 #define STD_MIN(a, b) ((b) < (a) ? (b) : (a))
 #define STD_MAX(a, b) ((a) < (b) ? (b) : (a))
 
